@@ -98,12 +98,14 @@ def snapshot_vars(obj):
 def table():
     rows = []
     SLOW = icontract.SLOW
-    options = {"default": None, "True": True, "False": False, "SLOW": SLOW}
+    _UNSET = object()
+    # (falsy / truthy values that are not bool: e.g. os.environ.get("CHECKS") with the variable unset gives None)
+    options = {"default": _UNSET, "True": True, "False": False, "SLOW": SLOW, "None": None, "0": 0, "empty_str": "", "1": 1}
     for deco in ("require", "ensure", "snapshot_over_enabled_ensure", "snapshot_over_same_ensure", "snapshot_over_bare", "invariant"):
         kinds = ["class", "plain_subclass", "dbc_subclass"] if deco == "invariant" else ["function", "method", "static", "classm", "property", "async"]
         for opt, val in options.items():
             for kind in kinds:
-                kw = {} if val is None else {"enabled": val}
+                kw = {} if val is _UNSET else {"enabled": val}
                 COUNT["cond"] = COUNT["cap"] = 0
                 row = {"deco": deco, "enabled": opt, "kind": kind}
                 original = make_target(kind)
